@@ -32,7 +32,10 @@ pub struct SessionObs {
     pub actor_panicked: Vec<bool>,
     /// logical time the leader issued its first run RPC
     pub run_issued: Option<u64>,
-    /// logical time of the leader's last activity (RPC completion, MPC message, output)
+    /// logical time of the leader's last own activity that certainly lies inside the period in
+    /// which it holds the permit: an MPC message it sent or its result notification
+    /// (completions of RPCs and calls *towards* the leader are not counted: they can be logged
+    /// after the leader's policy has ended)
     pub leader_last: u64,
     pub failed_rpc_fired: bool,
     /// results of the cancel calls (per party), None = never returned
@@ -196,7 +199,6 @@ pub async fn explore_batch(b: &Batch, baseline: usize) -> BatchObs {
                         so.run_issued = Some(t);
                     }
                 }
-                LogEv::RpcDone { from, to, .. } if *from == leader || *to == leader => so.leader_last = so.leader_last.max(t),
                 _ => {}
             }
         }
